@@ -341,7 +341,19 @@ fn battery(sim: &Sim, dev: &crate::world::Dev, vsize: u64, cs: u64, bs: u64, ro:
     }
     // check() walks every guest cluster of the virtual disk by design: only
     // meaningful for sizes it can walk
-    if vsize / cs <= (1 << 16) {
+    // ... and it walks every entry of every refcount block the refcount table
+    // points to, printing a line per leaked cluster: with 2-bit refcounts
+    // and 512 KiB clusters one block describes two million clusters.  That is
+    // proportional to the file, but takes minutes; keep to what is walked
+    // in seconds.
+    let rc_entries = dev
+        .verif_snapshot()
+        .map(|s| {
+            let per_block = (cs * 8) >> dev.info.refcount_order();
+            s.reftable.iter().filter(|e| **e != 0).count() as u64 * per_block
+        })
+        .unwrap_or(0);
+    if vsize / cs <= (1 << 16) && rc_entries <= (1 << 20) {
         calls += 1;
         sim.run_one(async { dev.check().await }, STEP_BUDGET * 5)
             .map_err(|s| format!("check(): {s:?}"))
@@ -455,7 +467,10 @@ pub fn run_mal(p: &Profile, seed: u64, run: u64, ov: &Override, want_case: bool)
             o2.nontrivial = true;
             o2.stats.insert("header_buffers".into(), 1);
         } else {
-            let cfg = ov.cfg.clone().unwrap_or_else(|| gen_cfg(&mut rng, &p.gen));
+            // (always drawn, so that the generator stream stays aligned when a
+            // replay file supplies the configuration)
+            let gcfg = gen_cfg(&mut rng, &p.gen);
+            let cfg = ov.cfg.clone().unwrap_or(gcfg);
             cfg_used = Some(cfg.clone());
             o2.geo = cfg.geo_key();
             let n = cfg.layers.len();
